@@ -52,6 +52,38 @@ claim("C18",
       "Structural decision of C18 per mutator: write-through pairing of the proxy list and _objects with identical arguments in every listed mutator; pop returns the removed object on every path; prune-polarity agreement between pop and remove; every store mutation inside exactly one notification scope with trigger=False on delegated calls; readers (get_range, membership, objects getter/setter) use the current stores.",
       "Consistency after arbitrary mutation sequences follows from the per-mutator obligations but is not executed; list mutators that ListProxy does not override are reported as informational.",
       "static analysis: sibling/parallel-store cross-check per basic block, return discipline on the CFG, lexical scope rules")
+claim("C03",
+      "Structural decision of necessary conditions of C03: the value store precedes every dispatch on every path and the event's old/new are the overwritten/installed bindings (R03.a); both value-dispatch loops iterate sorted(..., key=precedence) (R03.b); the Comparator tables map numbers/str/None/dates to operator.eq, recurse into containers and return literal False on every fall-through (R03.c); the event-type table (R03.d, 4 cases) and the dispatch decision of _call_watcher (R03.f, 16 cases) equal the specification exhaustively; register/lookup/unwatch use the same table paths (R03.e).",
+      "Exactly-once delivery counts, depth-first cascades and queued semantics over all programs are NOT decided (they need an executable reference semantics).",
+      "static analysis: dominance/def-use on the setter CFG, table checks on class literals, finite-domain abstract interpretation of _update_event_type and _call_watcher vs. an independent specification")
+claim("C04",
+      "Structural decision of necessary conditions of C04: nothing executes on the batching arm of _call_watcher (8 abstract cases); every flush call outside the flush is controlled by `not <saved/live batching flag>` (5 sites); queued watchers are de-duplicated by identity, the flush maps (name, what) to the last event, empties both queues before running and loops until empty; discard_events restores copies taken before the body; update() captures values and links before applying and the restorer re-applies them; trigger re-submits current values.",
+      "Delivery counts and event contents under arbitrary nestings of batch/update/discard/trigger are not decided (need execution).",
+      "static analysis: abstract interpretation of the dispatcher, control-dependence (dominating branch conditions), reaching definitions, dominance on CFGs")
+claim("C12",
+      "Structural decision of the ownership rules behind C12: the instance route never writes class storage (every self.default / _set_instantiate write is under `obj is None`); per-instance Parameter objects have one producer which stores a fresh copy (copy.copy, new watchers, re-copied mutable slots); every __set__ override is an @instance_descriptor and the wrapper delegates and returns; instantiate=True => per-instance deepcopy, constant => reference; class-level assignment on a subclass copies the inherited Parameter first.",
+      "Order-dependent histories are not executed; the rules are the conditions that make the history irrelevant.",
+      "static analysis: must-conditions from dominating branches, who-may-write tables, shape checks of the copy routine, decorator agreement across sibling overrides")
+claim("C14",
+      "Structural decision of C14: in Parameter.__set__ every value store is control-dependent on the constant/readonly test, none lies on a readonly path or on the constant arm for an initialized instance, the readonly raise is unconditional and the constant raise is skipped only for identity with the current value; edit_constant restores every cleared flag in a finally at class and instance level; `name` is declared constant; readonly forces constant.",
+      "Histories involving per-instance Parameter copies created earlier are not executed; as_uninitialized is deliberately not armed (DESIGN.md C05 exclusions).",
+      "static analysis: control dependence on the setter CFG, exceptional-edge coverage of edit_constant (shared with C05), declaration checks")
+claim("C15",
+      "Decides writer/reader agreement of every codec pair: presence of both directions in the same class, equal strftime/strptime format multisets, list-out/tuple-back, None both ways, the DateRange width discriminator equals the width of the format it selects and the serialize side selects date-only exactly for plain dates, and the object-level loops (same subset filter, p.serialize / param[name].deserialize, plain json.dumps/json.loads).",
+      "Value-level equality of the round trip (years < 1000, non-finite floats, int vs float) is not decided. Decorator agreement is deliberately not armed (DateRange.deserialize lacks @classmethod yet round-trips).",
+      "static analysis: sibling cross-check of serialize/deserialize ASTs (format literals, container constructors, guards), width computation from format directives")
+claim("C16",
+      "Decides: schema dispatch is exhaustive for the 15 listed types and class-name-derived types are primitives; every emitted key is JSON-Schema vocabulary and every literal type a primitive; declare_numeric_bounds emits exactly the specified keywords on all 20 bound x inclusivity configurations and those keywords accept a value class iff the Number validator's specification does (100 cases, exhaustive); nullable wrapper iff allow_None; tuple length pins minItems = maxItems.",
+      "That arbitrary serialized values validate against the schema needs a validator run and is not decided; Selector enum contents are run-time objects.",
+      "static analysis: dispatch-table exhaustiveness, vocabulary check over dict literals and resolved subscript keys, finite-domain abstract interpretation of the schema builders vs. the C01 bounds oracle")
+claim("C17",
+      "Decides: the watcher-owner assumption of Parameterized.__setstate__ against every installer of method callers (R17.a), that no closure reaches an internally installed watcher (R17.b), slots/init/getstate/setstate agreement of the private namespaces and of Parameter (R17.c), and the restore ordering of __setstate__ (R17.d). Two genuine defects of the pinned tree are recorded as known findings (KNOWN_FINDINGS.txt): _watch_group registers a parent's method caller on a sub-object; the `callback` closure of _resolve_dynamic_deps is stored in watchers.",
+      "Value equality and independence of the copy (heap shape at run time) are not decided. User callables registered through the public watch API are out of scope.",
+      "static analysis: reader/writer assumption cross-check via def-use, escape analysis of nested functions into the watcher set-up, all-paths assignment of slots on the CFG")
+claim("C19",
+      "Decides: every random generator reseeds (super().__call__()) before drawing, the reseed runs under time_dependent, the seed's inputs are (name hash, time, global seed) only and the hash works on a copy of the digest (R19.a); inspection reaches no producer (R19.b); Dynamic._produce_value produces iff untimed or forced or the time changed and then writes value and time together, else returns the cache and writes nothing (24 abstract cases, exhaustive; R19.c); Time enter/exit and _state_push/_state_pop move the same fields in the same order (R19.d).",
+      "Numeric equality of generated values (stdlib PRNG) is not decided.",
+      "static analysis: dominance (reseed-before-draw), call-graph reachability, finite-domain abstract interpretation of the cache function, push/pop table agreement")
 
 
 def main():
